@@ -181,7 +181,8 @@ func (p *PluginContainer) cloneAndAppendMiddle(plugins ...Plugin) *PluginContain
 	oldRefreshTree := p.refreshTree
 	p.refreshTree = func() {
 		oldRefreshTree()
-		newPluginContainer.refresh()
+		// refresh the derived container and everything derived from it
+		newPluginContainer.refreshTree()
 	}
 	return newPluginContainer
 }
